@@ -61,9 +61,9 @@ class P(framework.Prop):
                 for e in ("a", "@", "a ||"):
                     out.append("cli %s %s %s" % (f, wire.s(e), wire.s(i)))
         for f in FLAGS:
-            for e in EXPRS[:12]:
+            for e in EXPRS[:24]:
                 out.append("cli %s %s _" % (f, wire.s(e)))          # unreadable input
-            for i in INPUTS[:4]:
+            for i in INPUTS[:10]:
                 out.append("cli %s _ %s" % (f, wire.s(i)))          # unreadable expression file
         for _ in range(60 if tier == "quick" else 5000):
             e = gen.render(rng, gen.gen_expr(rng, 3))
@@ -92,9 +92,20 @@ class P(framework.Prop):
                 if "a" in flags:
                     args.append("--ast")
                 stdin = b""
+                BAD_UTF8 = [b'{"a":"x\xffy"}', b'\xff', b'{"a": "\xc3"}', b'{"a": "\xed\xa0\x80"}', b'{"a": 1}\n\xfe', b'{"\x80": 1, "a": 2}', b'\xef\xbb\xbf\xff{"a": 1}', b'"\xf8\x88\x80\x80\x80"']
                 if i == "_":
-                    miss = os.path.join(tmp, "missing-%d.json" % n) if h & 2 else tmp      # a missing path or a directory
-                    args += ["-f", miss]
+                    # input that cannot be read as text: a missing path, a directory, a file or a stream that is not valid UTF-8
+                    v = (h >> 6) % 4
+                    if v == 0:
+                        args += ["-f", os.path.join(tmp, "missing-%d.json" % n)]
+                    elif v == 1:
+                        args += ["-f", tmp]
+                    elif v == 2:
+                        p = os.path.join(tmp, "bad-%d.json" % n)
+                        open(p, "wb").write(BAD_UTF8[(h >> 10) % len(BAD_UTF8)])
+                        args += ["-f", p]
+                    else:
+                        stdin = BAD_UTF8[(h >> 10) % len(BAD_UTF8)]
                 else:
                     text = wire.unval([i])[0]
                     if h & 4:
@@ -104,7 +115,15 @@ class P(framework.Prop):
                     else:
                         stdin = text.encode("utf8")
                 if e == "_":
-                    args += ["-e", os.path.join(tmp, "no-such-expr-%d" % n)]
+                    v = (h >> 8) % 3
+                    if v == 0:
+                        args += ["-e", os.path.join(tmp, "no-such-expr-%d" % n)]
+                    elif v == 1:
+                        args += ["-e", tmp]
+                    else:
+                        p = os.path.join(tmp, "bad-%d.jmespath" % n)
+                        open(p, "wb").write([b"'\xff'", b"a.\xffb", b'"\xc3"', b"`\"\xed\xa0\x80\"`", b"a\n\xfe"][(h >> 12) % 5])
+                        args += ["-e", p]
                 else:
                     etext = wire.unval([e])[0]
                     if (h & 16) or etext.startswith("-") or etext == "":
